@@ -171,6 +171,15 @@ example : rtCheck (B "NOT a BETWEEN @p AND b'\\x00' OR c NOT IN UNNEST((d)) AND 
 example : rtCheck (B "- -x + (~+y).`a b`[SAFE_ORDINAL(r'\\n')] LIKE 'q'") (B "- -x + (~+y).`a b`[SAFE_ORDINAL(\"\\\\n\")] LIKE \"q\"") = true := by
   decide +kernel
 
+/-- the repaired subscript (Task R1): a column named like a position keyword round-trips as a plain subscript — the
+word stays as written, nothing is canonicalised — and the keyword form still prints its canonical spelling -/
+example : rtCheck (B "a[offset]") (B "a[offset]") = true := by decide +kernel
+example : rtCheck (B "a[ORDINAL * 2]") (B "a[ORDINAL * 2]") = true := by decide +kernel
+example : rtCheck (B "a[offset.f]") (B "a[offset.f]") = true := by decide +kernel
+example : rtCheck (B "a[safe_offset]") (B "a[safe_offset]") = true := by decide +kernel
+example : rtCheck (B "a[OFFSET(1)]") (B "a[OFFSET(1)]") = true := by decide +kernel
+example : rtCheck (B "a[offset (1)]") (B "a[OFFSET(1)]") = true := by decide +kernel
+
 /-- the input of the task text as written, `… IN (1, 'it''s')`, is NOT an expression of the language: `'it''s'` is two
 adjacent string literals (model and Go agree: `expected token: ), but: <string>`) -/
 example : (match lexAll (B "a.b[OFFSET(1)] - -1 IS NOT NULL AND x IN (1, 'it''s')") with
